@@ -1077,3 +1077,91 @@ class C27Reload(Base):
                 self.v('task-appeared-on-reload',
                        f'{tid} appeared in the pool during reload',
                        {'after': a})
+
+
+class C33Xtriggers(Base):
+    """Xtrigger call discipline per function signature."""
+    NAME = 'c33'
+    PID = 'C33'
+    K = 6
+
+    def __init__(self, case, phase):
+        super().__init__(case, phase)
+        self.in_flight: Dict[str, int] = {}
+        self.last_call: Dict[str, float] = {}
+        self.succeeded: Dict[str, int] = {}     # sig -> iteration
+        self.released: Set[str] = set()         # housekept after success
+        self.unsat_for: Dict[Tuple[str, str], int] = {}
+
+    def on_event(self, ev):
+        k = ev['k']
+        if k == 'XTRIG_CALL':
+            sig = ev['sig']
+            self.n['calls'] += 1
+            if sig in self.in_flight:
+                self.v('two-calls-in-flight',
+                       f'{sig} called while a previous call is still in '
+                       'progress', ev)
+            self.in_flight[sig] = ev['it']
+            last = self.last_call.get(sig)
+            if last is not None and sig in self.released:
+                # succeeded, then forgotten when no task needed it any more:
+                # a new need starts a new polling sequence
+                self.n['calls_after_release'] += 1
+                last = None
+            if last is not None:
+                self.n['repeat_calls'] += 1
+                gap = ev['vtime'] - last
+                if gap + 1e-6 < ev['intvl']:
+                    self.v('called-before-interval-elapsed',
+                           f'{sig} called again after {gap:.1f}s, interval '
+                           f'{ev["intvl"]}s', ev)
+            self.last_call[sig] = ev['vtime']
+            if sig in self.succeeded and sig not in self.released:
+                self.v('called-again-after-success',
+                       f'{sig} called again although it already succeeded '
+                       f'at iteration {self.succeeded[sig]} and is still '
+                       'needed', ev)
+            self.released.discard(sig)
+        elif k == 'XTRIG_RET':
+            self.in_flight.pop(ev['sig'], None)
+            if ev['ok']:
+                self.n['successes'] += 1
+                self.succeeded[ev['sig']] = ev['it']
+        elif k == 'XTRIG_HOUSEKEEP':
+            for sig in list(self.succeeded):
+                if sig not in ev['needed']:
+                    # nothing in the pool needs it any more: a later task
+                    # needing it may legitimately call it again
+                    self.released.add(sig)
+
+    def after_iter(self, drv, pool_snap):
+        schd = drv.schd
+        seen = set()
+        for itask in schd.pool.get_tasks():
+            for label, sat in itask.state.xtriggers.items():
+                if label.startswith('_cylc'):
+                    continue
+                try:
+                    sig = schd.xtrigger_mgr.get_xtrig_ctx(
+                        itask, label).get_signature()
+                except Exception:
+                    continue
+                key = (itask.identity, label)
+                if sig in self.succeeded and not sat and \
+                        itask.state.status == 'waiting' and \
+                        not itask.state.is_runahead:
+                    seen.add(key)
+                    c = self.unsat_for.get(key, 0) + 1
+                    self.unsat_for[key] = c
+                    self.n['dependent_waits'] += 1
+                    if c == self.K + 1:
+                        self.v('dependent-not-satisfied-after-success',
+                               f'{itask.identity} still has xtrigger '
+                               f'{label} unsatisfied {c} iterations after '
+                               f'{sig} succeeded', {'sig': sig})
+                elif sat:
+                    self.n['dependents_satisfied_obs'] += 1
+        for key in list(self.unsat_for):
+            if key not in seen:
+                del self.unsat_for[key]
